@@ -1,0 +1,47 @@
+//go:build verif
+
+package klog
+
+import (
+	"os"
+	"sync/atomic"
+	gotime "time"
+
+	"github.com/jotaen/klog/klog/app"
+)
+
+// verifContextWrapper lets a verification harness interpose its own
+// app.Context (e.g. with a controlled clock and captured output) on the
+// complete CLI path. It only exists in builds with the `verif` tag.
+var verifContextWrapper atomic.Pointer[func(app.Context) app.Context]
+
+// SetVerifContextWrapper installs (or, with nil, removes) the wrapper.
+func SetVerifContextWrapper(wrap func(app.Context) app.Context) {
+	if wrap == nil {
+		verifContextWrapper.Store(nil)
+		return
+	}
+	verifContextWrapper.Store(&wrap)
+}
+
+type verifFixedClockContext struct {
+	app.Context
+	now gotime.Time
+}
+
+func (c *verifFixedClockContext) Now() gotime.Time { return c.now }
+
+func verifWrapContext(ctx app.Context) app.Context {
+	if wrap := verifContextWrapper.Load(); wrap != nil {
+		return (*wrap)(ctx)
+	}
+	// In the real binary the clock can be pinned via KLOG_VERIF_NOW=<RFC3339>.
+	if v := os.Getenv("KLOG_VERIF_NOW"); v != "" {
+		t, err := gotime.Parse(gotime.RFC3339, v)
+		if err != nil {
+			panic("KLOG_VERIF_NOW: " + err.Error())
+		}
+		return &verifFixedClockContext{ctx, t}
+	}
+	return ctx
+}
